@@ -170,6 +170,7 @@ PROPS["C07"] = {
     "feature": "c07",
     "tiers": tiers("C07"),
     "mem_gb": 16,
+    "overrides": [(r"_t_to_", {"mem_gb": 30})],
     "functions": ["ReverseMut/ComplementMut for Seq", "ReverseComplementMut::revcomp (default)", "Reverse/Complement/ReverseComplement::to_* for Seq and SeqSlice",
                   "ToOwned for SeqSlice", "ComplementMut on symbols"],
     "bounds": {"all": "owned sequences of concrete length L (0,1,3,4; 11/13/33 in thorough = word-straddling) with fully symbolic content; copying forms on "
